@@ -233,6 +233,61 @@ ADDED = {
            'D6: every entry point that reaches asm_candidates has typed the immediates with the operand size (0xffff and -1 of a 16-bit operand get the same candidates); D7: the rendering memo txt of an operand never decides a candidate.',
 }
 
+# session 3: evaluation of the source on finite families derived from the code's own structure (simplifier, node classes, fixed-width integers, grammar actions)
+ADDED3 = {
+    'C02': ' D10: every spelling in cond_list is an IA-32 spelling of that condition code (ref/ia32_cc.ref). D11: the segment override written on the source operand of a string instruction '
+           'reaches the encoding wherever that operand stands (shared string trip of C03.D5).',
+    'C03': ' D11: assembling and disassembling do not edit the tables they look up, including lists a lookup method hands out (shared with C12.D7). D3 evaluates the `SIZE PTR seg:[..]` '
+           'action also on base = index addresses ([ebp+ebp*2]).',
+    'C04': ' D10 also takes the count as an immediate byte whose low five bits are 0 (0x20, 0x40, 0xE0). D11 also covers one register named twice (xchg r, r; xadd r, r doubles r).',
+    'C05': ' D2-D5 and D10 are now decided by interpreting _expr_simp / _expr_simp_w / expr_simp / merge_sliceto_slice / parity and the ordering key from their source on model IR nodes '
+           '(sa/simpeval.py): about 1 000 well-typed expressions generated from the shapes the rewrite rules distinguish (operator x arity x constant position x boundary constants around every '
+           'power of two x byte-grid slice and concatenation boundaries x node kind); one rewriting step and the full simplification keep width and value on 48 valuations (every single bit, '
+           'all ones, zero), return on every member (no KeyError on odd widths) and terminate. D11: visit() of every node class, interpreted from expression.py, reaches every sub-expression. '
+           'The former clauses that matched the spelling of the rules are retired (they reported behaviour-preserving rewrites).',
+    'C06': ' D11: every rewriting step of the simplifier the evaluator runs keeps width and value on the expression family (shared with C05).',
+    'C07': ' D8 is decided on the concatenation family of the evaluated simplifier. D12: base + 0, 0 + base and base + c + (-c) simplify to the base itself for sums of one to three terms '
+           '(cells are keyed by the simplified address). D10 follows the evaluated address through renamed locals.',
+    'C08': ' D8: a shift or rotate whose count (cl or imm8) masked to five bits is 0 carries every old flag through (shared with C04.D10).',
+    'C09': ' D9 also takes the operand shape of a segment override, derived by evaluating the grammar actions of ia32_att.py and the loop of parse_args. D12: the `SIZE PTR ds:[..]` rendering of '
+           'an ss-relative address is read back with its override (shared with C03.D3).',
+    'C10': ' D2 also sizes the memory form of every MMX/SSE row under each mandatory prefix (the size must be a key of dict_to_ad.ad_size). D10: the locals a parse-error callback reads through '
+           'frame.f_back^k.f_locals[name] exist in every function that can stand k frames up (yacc -> parse -> parse_ad -> parse_mnemo). The deadness of the raise in get_afs is decided by '
+           'evaluating get_afs on every displacement kind the ModRM tables hold; a raise site that is neither dead nor reached by a live row is an ANALYSIS-ERROR, not a violation.',
+    'C11': ' D4 also probes one register named twice (xchg / xadd / cmpxchg r, r).',
+    'C12': ' D7 also follows tables handed out by lookup methods of a module-level instance (find_mnemo returns the table\'s own list). D13: results of cached functions (lru_cache / memoize) '
+           'are not edited by callers (directly, as elements of a list of results, through a loop variable).',
+    'C13': ' D9: simplifying a copy of a simplified expression returns it unchanged, D10: spellings that differ only in order or nesting of the operands of + * ^ & | simplify to the identical '
+           'expression -- both evaluated from the source on the expression family; D11: visit() reaches every sub-expression.',
+    'C14': ' C14.eval: modint.py is interpreted from its source (sa/srcclasses.py) and constructors, + - * & | ^ << >> % **, unary - ~ abs, the comparisons, int() and hash of all 11 classes are '
+           'evaluated on boundary values x class pairs x plain integers x shift counts around and far beyond each width (43 000 evaluations) against the mathematical definition. A template '
+           'that does not match is reported only with an evaluated witness; then the run is decided by evaluation and its evidence level is `other`.',
+    'C15': ' D5-D8: the node classes of expression.py are interpreted from their source (sa/exprobj.py); on the expression family (about 200 expressions incl. segment selectors of every node '
+           'kind, assignments, signed/unsigned spellings of one constant): == is reflexive on identically built expressions, symmetric, != its negation, equal expressions have equal hashes, '
+           'widths and values; copy() is equal, keeps the flags and shares no node object; visit(identity) is equal and a renaming callback renames every occurrence; replace_expr on identifier '
+           'maps denotes simultaneous substitution on every valuation, compound keys of equal hash / rotations give the simultaneous result; canonize keeps width and value.',
+    'C16': ' D5: get_r (mem_read False and True), evaluated from the source on the family, contains every identifier and memory cell with a WITNESSED influence on the value (two valuations '
+           'that differ only there give different values), the address and selector of a store; get_w names the destination; get_size gives the width; get_expr_ids collects every identifier.',
+    'C17': ' D2 evaluates get_im_fmt on se x w8 x mode x kind. D6: getdstflow, evaluated on immediates typed by intsize (both kinds) x operand size x offsets in both halves of the address '
+           'range, gives offset + length + displacement reduced to the operand size as a non-negative address.',
+    'C18': ' D10: the class matcher (metaclass check), evaluated on the fields of every class, accepts the canonical word and rejects every word that differs in one fixed field, fields whose '
+           'pattern is 0 included. D11: ppc_mn.__init__ constructs the bit-field objects of each instruction in that call.',
+    'C19': ' D8: an immediate beside an unsized memory operand is typed by the size of the register operand (arg_set_numpy_imm evaluated on the operand lists both parsers deliver).',
+}
+TECH3 = {
+    'C05': '; abstract interpretation of the simplifier source on a finite expression family generated from the rule shapes (checker-side evaluator, no repository code imported)',
+    'C06': '; the simplifier evaluated from its source on a finite expression family',
+    'C07': '; the simplifier evaluated from its source on address spellings and concatenations',
+    'C13': '; idempotence and order-insensitivity evaluated from the simplifier source on a finite expression family',
+    'C14': '; interpretation of the class source on the boundary domain spanned by the class declarations',
+    'C15': '; interpretation of the node-class source on a finite expression family (implications only)',
+    'C16': '; interpretation of get_r / get_w on a finite expression family against witnessed dependencies',
+    'C10': '; call-chain resolution for frame introspection in error callbacks',
+    'C12': '; alias analysis of tables handed out by lookup methods and of cached results',
+    'C17': '; finite evaluation of intsize / getdstflow / get_im_fmt',
+    'C18': '; finite evaluation of the class matcher; freshness analysis of per-instance field objects',
+}
+
 PENDING = {}
 
 ALL = ['C%02d' % i for i in range(1, 20)]
@@ -251,9 +306,9 @@ def main():
             'evidence_file': '/verif/evidence/%s.json' % pid,
             'replay_cmd_template': './check %s --replay {path}' % pid,
             'engine': 'sa',
-            'level_claimed': {'category': cat, 'text': text + ADDED.get(pid, ''), 'design_ref': 'DESIGN.md section 5 and 12, %s' % pid},
+            'level_claimed': {'category': cat, 'text': text + ADDED.get(pid, '') + ADDED3.get(pid, ''), 'design_ref': 'DESIGN.md section 5 and 12, %s' % pid},
             'level_note': note,
-            'technique': tech,
+            'technique': tech + TECH3.get(pid, ''),
         })
     na = []
     for pid in ALL:
